@@ -1093,9 +1093,10 @@ def hv1(F, R):
                 if not ok:
                     # delegation whose result is returned directly (close_file -> flush_file result)
                     bad += 1
-                    R.bad(fn, "%s:%s" % (pname, what), "%s reachable without validating handle parameter `%s`" % (what, pname), fn.loc(b, i))
+                    # (keyed by the parameter's position: its name is free)
+                    R.bad(fn, "arg%d:%s" % (local, what), "%s reachable without validating handle parameter `%s`" % (what, pname), fn.loc(b, i))
             if bad == 0:
-                R.ok(fn, pname, "handle `%s` validated before %d effects/Ok returns" % (pname, len(targets)))
+                R.ok(fn, "arg%d" % local, "handle `%s` validated before %d effects/Ok returns" % (pname, len(targets)))
 
 
 @rule("HV2", ["C08"], floor=9,
